@@ -132,26 +132,57 @@ def padded(h, t):
 
 ENV['padded'] = padded
 
+def divmul(k, q):
+    """(k*q) div q == k and (k*q) mod q == 0 for q >= 1, k >= 0 (lemma about truncating division; engine/selftest.py)"""
+    from engine.spec import tdiv
+    k = getattr(k, 'z', k)
+    q = getattr(q, 'z', q)
+    return _z3.Implies(_z3.And(q >= 1, k >= 0), tdiv(k * q, q) == k)
+
+
+ENV['DIVMUL'] = divmul
+
+
+def mulmono(x, y, p):
+    """x >= y and p >= 0 imply x*p >= y*p (order axiom of the integers; engine/selftest.py)"""
+    x, y, p = [getattr(t, 'z', t) for t in (x, y, p)]
+    return _z3.Implies(_z3.And(x >= y, p >= 0), x * p >= y * p)
+
+
+def mulcancel(q, u, v):
+    """q >= 1 and q*u >= q*v imply u >= v (engine/selftest.py)"""
+    q, u, v = [getattr(t, 'z', t) for t in (q, u, v)]
+    return _z3.Implies(_z3.And(q >= 1, q * u >= q * v), u >= v)
+
+
+ENV['MULMONO'] = mulmono
+ENV['MULCANCEL'] = mulcancel
+
 fn(IR + 'simplify', TU_RS, serves=['C08', 'C05'], pure=True,
    requires=[('positive', 'And(p >= 1, q >= 1)')],
    ensures=[('reduced', 'exists(lambda g: And(g >= 1, p == result.first * g, q == result.second * g))'),
             ('positive', 'And(result.first >= 1, result.second >= 1, result.first <= p, result.second <= q)'),
             ('coprime', 'coprime(result.first, result.second)'),
-            ('unit_iff_equal', '(result.first == result.second) == (p == q)')])
+            ('unit_iff_equal', '(result.first == result.second) == (p == q)'),
+            ('coprime_fixed', 'Implies(coprime(p, q), And(result.first == p, result.second == q))')])
 
-fn(IR + 'next_size', TU_RS, sig='(int, int, int)', serves=['C08', 'C05'], pure=True,
+fn(IR + 'next_size', TU_RS, sig='(int, int, int)', serves=['C08', 'C05'], pure=True, extra_env=ENV,
    requires=[('positive', 'And(p >= 1, q >= 1, size >= 0, size <= INT_MAX - q)')],
-   ensures=[('hint:multiple_of_d', 'And(d >= 1, result == tdiv(result, d) * d, result - size < d, result >= size)'),
+   post_facts=['DIVMUL(tdiv(size, d) + 1, d)', 'DIVMUL(tdiv(size, d), d)'],
+   ensures=[('hint:multiple_of_d', 'And(d >= 1, result == If(tmod(size, d) == 0, tdiv(size, d), tdiv(size, d) + 1) * d, result == tdiv(result, d) * d, result - size < d, result >= size)'),
             ('hint:d_divides_q', 'exists(lambda n: And(n >= 1, q == d * n))'),
             ('covers', 'And(result >= size, result < size + q)'),
-            ('multiple', 'exists(lambda k, m, n: And(n >= 1, q == m * n, m >= 1, result == k * m, result - size < m))')])
+            ('multiple', 'exists(lambda k, m, n: And(n >= 1, q == m * n, m >= 1, result == k * m, result - size < m))'),
+            ('coprime_case', 'Implies(coprime(p, q), And(result == tdiv(result, q) * q, result - size < q))')])
 
-fn(IR + 'prev_size', TU_RS, sig='(int, int, int)', serves=['C08', 'C05'], pure=True,
+fn(IR + 'prev_size', TU_RS, sig='(int, int, int)', serves=['C08', 'C05'], pure=True, extra_env=ENV,
    requires=[('positive', 'And(p >= 1, q >= 1, size >= 0)')],
-   ensures=[('hint:multiple_of_d', 'And(d >= 1, result == tdiv(result, d) * d, size - result < d, result <= size)'),
+   post_facts=['DIVMUL(tdiv(size, d), d)'],
+   ensures=[('hint:multiple_of_d', 'And(d >= 1, result == tdiv(size, d) * d, result == tdiv(result, d) * d, size - result < d, result <= size)'),
             ('hint:d_divides_q', 'exists(lambda n: And(n >= 1, q == d * n))'),
             ('covers', 'And(result <= size, result > size - q)'),
-            ('multiple', 'exists(lambda k, m, n: And(n >= 1, q == m * n, m >= 1, result == k * m, size - result < m))')])
+            ('multiple', 'exists(lambda k, m, n: And(n >= 1, q == m * n, m >= 1, result == k * m, size - result < m))'),
+            ('coprime_case', 'Implies(coprime(p, q), And(result == tdiv(result, q) * q, size - result < q))')])
 
 fn(IR + 'polyphase', TU_RS, serves=['C08', 'C05'], extra_env=ENV, pure=True,
    requires=[('positive', 'And(m >= 1, m <= 1073741824, h.len >= 1, h.len <= INT_MAX - 2*m)')],
@@ -229,10 +260,19 @@ inline_fn('dsplib::IResampler::delay', 'dsplib::IResampler::decim_rate', 'dsplib
           'dsplib::FIRResampler::process', 'dsplib::FIRResampler::FIRResampler',
           'dsplib::(anon)::BypassResampler::process', 'dsplib::(anon)::BypassResampler::BypassResampler')
 
+RS_FACTS = ['DIVMUL(tdiv(nx, q) * p, q)', 'DIVMUL(tdiv(nn, q) * p, q)',
+            'MULMONO(tdiv(nn, q) * q - tdiv(nx, q) * q, mdl, p)',
+            'MULCANCEL(q, (tdiv(nn, q) - tdiv(nx, q)) * p, dl)']
 fn('dsplib::resample', TU_RS, sig='(const dsplib::arr_real &, int, int, const dsplib::arr_real &)', serves=['C08', 'C05'],
-   extra_env=ENV, pure=True, verify=False,   # contract written, proof not completed (non-linear length arithmetic): not claimed
+   extra_env=ENV, pure=True, timeout_ms=20000,
    requires=[('ratio', 'And(p_ >= 1, p_ <= 1024, q_ >= 1, q_ <= 1024)'), ('coeffs', 'And(h.len >= 1, h.len <= 1048576)'),
-             ('signal', 'x.len <= 1048576')],
+             ('signal', 'And(x.len >= 1, x.len <= 1048576)')],
+   body_assumes=['forall(lambda a: Implies(And(a >= 1, coprime(a, a)), a == 1))'],
+   facts_on=[('call:slice', RS_FACTS), ('call:process', RS_FACTS)],
    throws='False',
    ensures=[('identity', 'Implies(p_ == q_, result == x)'),
-            ('length', 'exists(lambda p1, q1, g, c: And(g >= 1, p_ == p1*g, q_ == q1*g, coprime(p1, q1), c*q1 >= x.len, (c-1)*q1 < x.len, result.len == p1*c))')])
+            ('hint:whole_blocks', 'when(p != q, lambda: And(result.len == tdiv(nx, q) * p, tdiv(nx, q) * q == nx, nx >= x.len, nx - x.len < q))'),
+            # p1/q1 the reduced ratio, c = ceil(len/q1): result has p1*c samples
+            ('length_unit_ratio', 'Implies(p_ == q_, result.len == x.len)'),
+            ('length', 'when(p_ != q_, lambda: exists_w(lambda p1, q1, c: exists(lambda g: And(g >= 1, p_ == p1*g, q_ == q1*g, coprime(p1, q1), '
+                       'c*q1 >= x.len, (c-1)*q1 < x.len, result.len == p1*c)), p, q, tdiv(nx, q)))')])
